@@ -378,6 +378,8 @@ func main() {
 	shard := flag.Int("shard", 0, "golden mode: this shard")
 	keep := flag.String("keep", "", "keep the final directory, uuid map and trace of every history under this directory")
 	golden := flag.String("golden", "", "C18: directory of golden databases (written by the pinned release) to open with the current tree")
+	fuzz19 := flag.Bool("fuzz19", false, "C19: one mutation of a valid database directory, then a battery of calls under recover + watchdog")
+	clonem := flag.Bool("clone", false, "C14: alias correspondence of CloneObject + mutate-after-store probes")
 	conc := flag.Bool("conc", false, "C08: concurrent workloads on one handle (build with -race)")
 	snake := flag.Bool("snake", false, "C18: print camelToSnake of every string over a small alphabet (hex in, hex out)")
 	pair := flag.Bool("pair", false, "C12: run every history under a pair of configurations and compare (model-free)")
@@ -402,6 +404,18 @@ func main() {
 	virtual := true // the flusher's sleeps always go through the virtual clock: ticks are explicit events
 	fails := 0
 	keepDir = *keep
+	if *fuzz19 {
+		for i := 0; i < *n; i++ {
+			fails += runFuzz19(w, *first+i, *seed*1000003+int64(*first+i))
+		}
+		w.Flush()
+		return
+	}
+	if *clonem {
+		runClone(w, *seed*1000003+int64(*first), *n)
+		w.Flush()
+		return
+	}
 	if *conc {
 		for i := 0; i < *n; i++ {
 			fails += runConc(w, *first+i, *seed*1000003+int64(*first+i))
